@@ -87,7 +87,18 @@ video_sink_thread(struct video_sink_s* const self)
 Error:
     LOGE("[stream %d]: SINK: Exiting thread (Error)", self->stream_id);
     self->sig_stop_source(self);
+    // Nobody reads this queue any more. Refuse further writes, so that a
+    // writer (source or filter) that waits for space in it wakes up, gets no
+    // region and sees the stop signal; video_sink_start() and acquire_stop()
+    // accept writes again. Then discard what is left in it, so that it does
+    // not reach the storage of the next acquisition.
+    channel_accept_writes(&self->in, 0);
     channel_read_unmap(&self->in, &self->reader, 0);
+    do {
+        slice = make_vfslice(channel_read_map(&self->in, &self->reader));
+        channel_read_unmap(
+          &self->in, &self->reader, (uint8_t*)slice.end - (uint8_t*)slice.beg);
+    } while (slice.end > slice.beg);
     storage_stop(self->storage);
     self->is_running = 0;
     self->is_stopping = 0;
